@@ -15,6 +15,7 @@ import TrVerif.Props.C07Fwd2
 import TrVerif.Props.C12Shift
 import TrVerif.Props.C12MapStatus
 import TrVerif.Props.C12
+import TrVerif.Props.C12Full
 namespace Tr
 
 def nvDs : Dataset :=
